@@ -194,7 +194,45 @@ def covered : Function → Bool
 def nontrivialRun (t : Terminal) (fs : List Function) : Bool :=
   fs.any (fun f => match f with | .print _ => true | _ => false) || t.cursor.col != 0
 
+/-! ### who may change the state that steers printing -/
+
+/-- functions that can change `autoWrapMode`, `insertMode`, `charsets` (the G0 / G1 designations) or
+    `activeCharset`: SM / RM naming insert mode (4), DECSET / DECRST naming auto-wrap (?7), the
+    restores of the saved context, of which the auto-wrap flag is a part (DECRC, SCORC, DECRST ?1048
+    and ?1049), the designations (`ESC ( c`, `ESC ) c`), SO / SI, and the two resets.  Everything
+    else — every other mode (in particular entering the alternate screen, ?47h/?1047h/?1049h, leaving
+    it with ?47l/?1047l, and saving the cursor), cursor movement, scrolling, erasing, printing, margins,
+    tabs, SGR, XTWINOPS — leaves all four as they are (`Avt.Props.C04.C04_print_modes_persist`). -/
+def setsPrintModes : Function → Bool
+  | .sm ms | .rm ms => ms.any (· == AnsiMode.insert)
+  | .decset ms => ms.any (· == DecMode.autoWrap)
+  | .decrst ms =>
+    ms.any fun m => m == .autoWrap || m == .saveCursor || m == .saveCursorAltScreenBuffer
+  | .decrc | .scorc | .gzd4 _ | .g1d4 _ | .so | .si | .ris | .decstr => true
+  | _ => false
+
+/-- are the four the same in both terminals? -/
+def samePrintModes (p n : Terminal) : Bool :=
+  n.autoWrapMode == p.autoWrapMode && n.insertMode == p.insertMode && n.charsets == p.charsets
+    && n.activeCharset == p.activeCharset
+
+/-- is any of the four away from its power-on value?  (evidence counter only) -/
+def printModesNonDefault (p : Terminal) : Bool :=
+  !p.autoWrapMode || p.insertMode || p.charsets != (Charset.ascii, Charset.ascii) || p.activeCharset != 0
+
 def checkStep (ev : StepEv) : List Verdict :=
+  let p := ev.prev.terminal
+  let n := ev.next.terminal
+  -- a resize keeps the modes that steer printing
+  if ev.kind == .resize then
+    [check "resize-keeps-print-modes" (printModesNonDefault p) (samePrintModes p n)]
+  else
+  -- the modes that steer printing are state: only their setters, the restores and the resets change them
+  let modes : List Verdict :=
+    if !ev.funs.isEmpty && ev.funs.all (fun f => !setsPrintModes f) then
+      [check "print-modes-persist" (printModesNonDefault p) (samePrintModes p n)]
+    else []
+  let spec : List Verdict :=
   if ev.funs.isEmpty || !ev.funs.all covered then [] else
   match foldSpec specFun ev.funs ev.prev.terminal with
   | none => []
@@ -213,6 +251,7 @@ def checkStep (ev : StepEv) : List Verdict :=
        (match foldSpec specFun ev.funs apiView with
         | some e2 => ev.next.terminal == afterCall ev.kind e2
         | none => true)]
+  spec ++ modes
 
 def checkNew (_cols _rows : Nat) (_lim : Option Nat) (_st : Vt) : List Verdict := []
 
